@@ -22,6 +22,7 @@ type harnessMeta struct {
 	Files    []string `json:"files"` // files to overlay into Pkg
 	Bound    string   `json:"bound"` // human description (quick)
 	BoundT   string   `json:"bound_thorough"`
+	Env      map[string]string `json:"env"`
 	Timeout  int      `json:"timeout_s"`
 	TimeoutT int      `json:"timeout_thorough_s"`
 }
@@ -80,6 +81,9 @@ func runBoundedHarness(o *runOpts, name string) boundedResult {
 		cmd.Dir = filepath.Join(o.verif, m.Dir)
 	}
 	cmd.Env = append(os.Environ(), "GOFLAGS=-mod=mod", "GOPROXY=off", "VERIF_TIER="+o.tier, "VERIF_SEED="+strconv.Itoa(seedFromEnv()), "GOCACHE="+goCacheDir())
+	for k, v := range m.Env {
+		cmd.Env = append(cmd.Env, k+"="+v)
+	}
 	out, runErr := cmd.CombinedOutput()
 	res.Seconds = time.Since(start).Seconds()
 	known := loadKnownFindings(o.verif)
